@@ -36,7 +36,7 @@ FU = 'utils.func_utils'
 
 
 def run(ctx: Ctx):
-  for r in (r1, r2, r3, r4, r5, r6, r7):
+  for r in (r1, r2, r3, r4, r5, r6, r7, r8, r9):
     ctx.guard(r)
 
 
@@ -560,11 +560,74 @@ def r7(ctx: Ctx):
   ctx.floor(rule, 1)
 
 
+def r8(ctx: Ctx):
+  rule = 'R-C17-8'
+  ctx.rule(rule, '"attribute, item and call chains ... yield the value the same expression yields'
+           ' eagerly": the tracing dunder methods of LazyObject (__getattr__, __getitem__, __call__)'
+           ' record their arguments AS GIVEN — no parameter is re-bound or converted before it goes'
+           ' into the LazyFn (a list key turned into a tuple makes arr[[0, 2]] evaluate as arr[0, 2])')
+  ci = ctx.repo.cls(LF, 'LazyObject')
+  n = 0
+  for name in ('__getattr__', '__getitem__', '__call__'):
+    fi = ci.methods.get(name)
+    if fi is None:
+      continue
+    n += 1
+    ps = set(fi.params()[1:])
+    a = fi.node.args
+    if a.vararg:
+      ps.add(a.vararg.arg)
+    if a.kwarg:
+      ps.add(a.kwarg.arg)
+    rebinds = [x for x in walk_no_nested(fi.node) if isinstance(x, (ast.Assign, ast.AugAssign, ast.AnnAssign)) and any(
+        isinstance(t, ast.Name) and t.id in ps for tt in (x.targets if isinstance(x, ast.Assign) else [x.target])
+        for t in ast.walk(tt))]
+    if rebinds:
+      ctx.fail(rule, fi, f'LazyObject.{name} records its arguments as given',
+               f'`{unparse(rebinds[0])[:60]}` re-binds a traced argument before it is recorded: the materialised'
+               ' expression then receives another value than the eager one (for a list key: tuple indexing'
+               ' instead of fancy/list indexing)', node=rebinds[0])
+    else:
+      ctx.ok(rule, fi, f'LazyObject.{name}: arguments recorded unchanged', fi.node)
+  ctx.floor(rule, 2, n)
+
+
+def r9(ctx: Ctx):
+  rule = 'R-C17-9'
+  ctx.rule(rule, '"dereferencing a cached object that is no longer held raises a dedicated'
+           ' missing-object error, never a stale or wrong value" across processes: handles carry an'
+           ' id whose high part is a per-process random base; the function that folds the uuid into'
+           ' that base combines DIFFERENT operands — no `x op x` with textually identical sides (x ^ x'
+           ' is 0 for every uuid: every process then numbers its objects 0, 1, 2, ... and a handle'
+           ' from another or a restarted process resolves to an unrelated local object)')
+  mi = ctx.repo.module(LF)
+  n = 0
+  for fi in mi.functions.values():
+    if 'uuid' not in fi.name and 'id' not in fi.name.lower().split('_'):
+      continue
+    for b in ast.walk(fi.node):
+      if isinstance(b, ast.BinOp) and isinstance(b.op, (ast.BitXor, ast.Sub, ast.BitAnd, ast.BitOr, ast.Mod, ast.FloorDiv)):
+        n += 1
+        if ast.dump(b.left) == ast.dump(b.right):
+          ctx.fail(rule, fi, f'{fi.name}: the fold combines two different operands',
+                   f'`{unparse(b)[:70]}` combines an expression with itself: the result is a constant whatever'
+                   ' the uuid was, so the per-process id base is the same in every process', node=b)
+        else:
+          ctx.ok(rule, fi, f'{fi.name}: `{unparse(b)[:40]}` has distinct operands', b)
+  ctx.floor(rule, 1, n)
+
+
 from mlmverif.selfcheck import B, OK  # noqa: E402
 
 _L = 'chainables/lazy_fns.py'
 _F = 'utils/func_utils.py'
 VARIANTS = [
+    B('list-key-recorded-as-tuple', 'chainables/lazy_fns.py',
+      '  def __getitem__(self, key) -> LazyFn:\n    return LazyFn.new(operator.getitem, args=(self, key))',
+      '  def __getitem__(self, key) -> LazyFn:\n    if isinstance(key, list):\n      key = tuple(key)\n    return LazyFn.new(operator.getitem, args=(self, key))', 'R-C17-8'),
+    B('uuid-fold-of-one-half-with-itself', 'chainables/lazy_fns.py',
+      "  b = int.from_bytes(b[:new_len], 'big') ^ int.from_bytes(b[new_len:], 'big')",
+      "  b = int.from_bytes(b[:new_len], 'big') ^ int.from_bytes(b[:new_len], 'big')", 'R-C17-9'),
     B('wrapped-value-tested-by-truthiness', 'chainables/lazy_fns.py',
       "    if self.value is None:\n      return f'LazyObject(id={self.id})'", "    if not self.value:\n      return f'LazyObject(id={self.id})'", 'R-C17-7'),
     OK('wrapped-value-presence-inverted', 'chainables/lazy_fns.py',
